@@ -93,3 +93,26 @@ def tokens_to_string(tokens):
     # last line
     content += line
     return content
+
+
+def param_to_string(key, value):
+    """renders one `key = value` option of a USING / SET list so that it parses back to the same option"""
+    import json
+    from mindsdb_sql.parser.ast.base import ASTNode
+    from mindsdb_sql.parser.ast.select.identifier import Identifier
+    from mindsdb_sql.parser.ast.select.constant import Constant
+
+    key_str = Identifier(parts=str(key).split('.')).to_string() if key != '' else '``'
+    if isinstance(value, ASTNode):
+        value_str = value.to_string()
+    elif value is None:
+        value_str = 'NULL'
+    elif isinstance(value, bool):
+        value_str = 'TRUE' if value else 'FALSE'
+    elif isinstance(value, str):
+        value_str = Constant(value).to_string()
+    elif isinstance(value, (dict, list)):
+        value_str = json.dumps(value)
+    else:
+        value_str = str(value)
+    return f'{key_str}={value_str}'
